@@ -1,5 +1,17 @@
 package main
 
+import (
+	"bytes"
+	"fmt"
+	"go/ast"
+	"go/printer"
+	"go/types"
+	"strconv"
+	"strings"
+
+	"golang.org/x/tools/go/packages"
+)
+
 // Gen/C18Str.lean: the data the byte-string helpers of property C18 depend on:
 //   cmsys/const.go   ESCAPE_FLAG, FNV1_32_INIT, FNV_32_PRIME, STRIP_ANSI_*, DBCS_*
 //   types/ansi       ESC_CHR
@@ -38,6 +50,98 @@ func init() {
 			}
 			lf.natList(v[0], bs)
 		}
+		// --- call sites (ptt/talk.go myWrite, ptt/bbs.go CrossPost) ---
+		pp := l.load("ptt")
+		lf.nat("lastCallInLen", c18ArrayLen(pt, "MsgQueueRaw", "LastCallIn"))
+		strips, stmts := c18CallSites(pp)
+		lf.raw(fmt.Sprintf("def myWriteStripsUnconditionally : Bool := %v\n\n", strips))
+		lf.raw("def crossPostTitleStmts : List String := [")
+		for i, st := range stmts {
+			if i > 0 {
+				lf.raw(", ")
+			}
+			lf.raw(strconv.Quote(st))
+		}
+		lf.raw("]\n")
 		lf.write(out)
 	})
+}
+
+// c18ArrayLen: the length of an array field of a struct type.
+func c18ArrayLen(p *packages.Package, typ, field string) int64 {
+	st, ok := lookup(p, typ).Type().Underlying().(*types.Struct)
+	if !ok {
+		fatal("%s.%s is not a struct", p.PkgPath, typ)
+	}
+	for i := 0; i < st.NumFields(); i++ {
+		if st.Field(i).Name() == field {
+			if at, ok := st.Field(i).Type().Underlying().(*types.Array); ok {
+				return at.Len()
+			}
+		}
+	}
+	fatal("%s.%s.%s: no such array field", p.PkgPath, typ, field)
+	return 0
+}
+
+func c18Print(p *packages.Package, n ast.Node) string {
+	var b bytes.Buffer
+	_ = printer.Fprint(&b, p.Fset, n)
+	return strings.Join(strings.Fields(b.String()), " ")
+}
+
+// c18CallSites reads two facts out of package ptt:
+//   - myWrite passes EVERY message through strip-all: `msg := cmsys.StripAnsi(prompt, cmsys.STRIP_ANSI_ALL)` is a
+//     statement of the function body itself (not nested in an if/for/switch), msg is not assigned anywhere else,
+//     and myWriteMsg receives msg;
+//   - the statements of CrossPost's body that write the new article's Title field, in order.
+func c18CallSites(p *packages.Package) (strips bool, titleStmts []string) {
+	for _, f := range p.Syntax {
+		for _, d := range f.Decls {
+			fd, ok := d.(*ast.FuncDecl)
+			if !ok || fd.Body == nil || fd.Recv != nil {
+				continue
+			}
+			switch fd.Name.Name {
+			case "myWrite":
+				direct, passes, others := false, false, 0
+				for _, st := range fd.Body.List {
+					if as, ok := st.(*ast.AssignStmt); ok && len(as.Lhs) == 1 && c18Print(p, as.Lhs[0]) == "msg" {
+						if c18Print(p, st) == "msg := cmsys.StripAnsi(prompt, cmsys.STRIP_ANSI_ALL)" {
+							direct = true
+						}
+					}
+				}
+				ast.Inspect(fd.Body, func(n ast.Node) bool {
+					switch x := n.(type) {
+					case *ast.AssignStmt:
+						for _, lh := range x.Lhs {
+							if c18Print(p, lh) == "msg" {
+								others++
+							}
+						}
+					case *ast.CallExpr:
+						if c18Print(p, x.Fun) == "myWriteMsg" && len(x.Args) > 0 && c18Print(p, x.Args[len(x.Args)-1]) == "msg" {
+							passes = true
+						}
+					}
+					return true
+				})
+				strips = direct && passes && others == 1
+			case "CrossPost":
+				ast.Inspect(fd.Body, func(n ast.Node) bool {
+					es, ok := n.(*ast.ExprStmt)
+					if !ok {
+						return true
+					}
+					txt := c18Print(p, es)
+					if strings.Contains(txt, "xFileHeader.Title") && (strings.HasPrefix(txt, "copy(") || strings.Contains(txt, "TrimDBCS(")) {
+						titleStmts = append(titleStmts, txt)
+					}
+					return true
+				})
+			}
+		}
+	}
+	return strips, titleStmts
 }
